@@ -206,3 +206,13 @@ for _p in ('C09', 'C10', 'C20'):
     PROPS[_p]['mirsym'] = True
     PROPS[_p]['outside_claim'] = [o for o in PROPS[_p]['outside_claim'] if 'Engine M' not in o] + [
         'Engine M: call sequences longer than 2 (quick) / 3 (thorough); Vec capacity is not modelled (reserve_capacity is a no-op in the model: its lack of effect rests on Engine K)']
+
+FS400 = ['-Z', 'unstable-options', '--cbmc-args', '--max-field-sensitivity-array-size', '400']
+PROPS['C02']['kani']['thorough'].append(H('c02::c02_long_declared_lengths_65551', '65 551-byte buffer: 52 symbolic head bytes + constant-zero tail, families 0-2, every input length n <= 65551 (declared lengths up to 65535 accepted / Partial counts exact)'))
+PROPS['C17']['kani']['thorough'].append('c02::c02_long_declared_lengths_65551')
+PROPS['C13']['kani']['thorough'].append(H('c13::c13_ipv4_303_wf', 'IPv4 header with one 300-byte TLV (length needs the high byte), contents symbolic', FS400))
+PROPS['C01']['kani'] = {'quick': [H('c01::c01_ipv4_text_is_dotted_quad_16', 'std Ipv4Addr::from_str vs a dotted-quad recogniser on every ASCII text of at most 16 bytes'),
+                                  H('c01::c01_model_parse_u16_matches_std_8', 'Engine M\'s parse::<u16> model (Rust transcription) vs the real std function on every ASCII text of at most 8 bytes')],
+                        'thorough': []}
+PROPS['C01']['kani_functions'] = ['std::net::Ipv4Addr::from_str (address-text clause)', 'core::num::<impl FromStr for u16>::from_str (model conformance)']
+PROPS['C01']['kani_stubs'] = ['Engine K: no std function stubbed']
